@@ -19,7 +19,7 @@ RULE = ('one real ActiveObject with a small pending-event capacity (2-6, so the 
 ASSUMPTIONS = ['bounded liveness under a fair suffix: exhausting the budget is reported as a violation of the stated bound (no state-cycle confirmation is attempted)']
 PROBES = ['concurrent_posters', 'token_queue_full']
 PLAN = {
-  'quick': {'strata': {'posters': 3000}, 'wall_s': 150, 'chunk': 50, 'min_conclusive': 500},
+  'quick': {'strata': {'posters': 3000}, 'wall_s': 300, 'chunk': 50, 'min_conclusive': 500},
   'thorough': {'strata': {'posters': 80000}, 'wall_s': 900, 'chunk': 100, 'min_conclusive': 5000},
 }
 BUDGET = 120000
